@@ -10,6 +10,8 @@ FLAGS_O2 = ["-O2", "-w", "-mbmi2", "-DNDEBUG"]
 
 def build(ctx, name, flags):
     stacks = iogen.catalogue(ctx.tier)
+    from vplib import grammar as g
+    stacks, _over = g.filter_by_real_view_size(ctx, stacks, iogen.HDR_IO)
     exe, bad = iogen.build_binary(ctx, stacks, MAIN, flags, name)
     if exe is None:
         for p, log in bad:
